@@ -1405,6 +1405,7 @@ func init() {
 		meta.IndexMap = idx
 		if replay == "" {
 			c04MultiFile(meta)
+			c04DateExamples(meta)
 		}
 		writeMeta(outDir, meta)
 		fmt.Fprintf(os.Stderr, "C04: %d cases (%d loaded)\n", len(cases), len(trees))
